@@ -291,3 +291,27 @@ def run(ctx, rep):
     pairing(R, rep)
     acquisition_guard(R, rep)
     cascade_exit(R, rep)
+    # shares of another security never enter this security's accounting: every effect of a look-ahead candidate
+    # (claim, ratio update) sits under the ticker-equality guard (shared with C09-R2)
+    import rules.c09 as c09
+    from core import Report
+    r2 = Report("tmp")
+    c09.lookahead_guards(R, r2)
+    for o in r2.obligations:
+        rep.ob("R6", o["instance"], o["ok"], o["detail"], o["site"], key="R6:" + o["instance"])
+    b = R.leg("BedAndBreakfast")[0]
+    tb = R.terms(b, 0)
+    for i, t in b.calls():
+        cb = R.F.bodies.get(t["callee"])
+        k = is_decimal_arith_assign(t["callee"])
+        is_ratio = cb is not None and any(is_decimal_arith_assign(u["callee"]) in ("MulAssign", "DivAssign") for _, u in cb.calls())
+        if (k in ("MulAssign", "DivAssign") or is_ratio) and b.in_loop(i):
+            ok = False
+            for cond, val, s_ in guards_of(b, tb, i):
+                if isinstance(cond, tuple) and cond[0] == "cmp" and cond[1] in ("Ne", "Eq") and show(cond[2]).endswith(".ticker") and show(cond[3]).endswith(".ticker"):
+                    if (cond[1] == "Ne" and not truth(val)) or (cond[1] == "Eq" and truth(val)):
+                        ok = True
+            rep.ob("R6", "30-day:ratio-update-under-ticker-guard", ok,
+                   "the cumulative split ratio is only updated by corporate actions of the sale's own security" if ok else
+                   "a SPLIT/UNSPLIT of ANY security inside the window rescales this security's 30-day match: shares are invented or lost",
+                   b.loc(t["sp"]), key="R6:bnb:ratio-ticker-guard")
